@@ -173,3 +173,12 @@ package poseidon
 //@   circuit
 //@   requires canonSeq(input)
 //@   ensures res == bn_hash_or_noop(input)
+
+// Hash -> Goldilocks elements: five little-endian 56-bit chunks of the canonical value (7-byte chunks in the
+// reference to_vec); the decomposition is exact, hence injective.
+//@ func (c *BN254Chip) ToVec(hash BN254HashOut) (res []gl.Variable)
+//@   props C10
+//@   circuit
+//@   ensures len(res) == 5
+//@   ensures forall(k, 0, 4, 0 <= res[k].Limb && res[k].Limb < pow2(56)) && 0 <= res[4].Limb && res[4].Limb < pow2(30)
+//@   ensures hash == res[0].Limb + res[1].Limb * pow2(56) + res[2].Limb * pow2(112) + res[3].Limb * pow2(168) + res[4].Limb * pow2(224)
